@@ -1208,7 +1208,84 @@ def t14_worklist():
 
 
 
-ITEMS = {"T1": t1_fields, "T2": t2_whitelist, "T3": t3_file_modes, "T4": t4_conv_axis, "T5": t5_flatten, "T6": t6_lif, "T7": t7_cuba, "T8": t8_unique_name, "T9": t9_neuron_shapes, "T10": t10_guards, "T11": t11_dict_overrides, "T12": t12_graph_interface, "T13": t13_write_shape, "T14": t14_worklist}
+# ---------------------------------------------------------------------------------------
+# T15  _check_types: the sequence of per-edge tests and the exception each raises
+# ---------------------------------------------------------------------------------------
+def t15_check_errors():
+    item = "T15"
+    tree = ast.parse(_src("nir/ir/graph.py"))
+    fn = _find_func(tree, "_check_types", "NIRGraph")
+    if fn is None:
+        raise Refusal(item, "_check_types not found")
+    body = [st for st in fn.body if not (isinstance(st, ast.Expr) and isinstance(st.value, ast.Constant))]
+    if len(body) != 2 or not isinstance(body[0], ast.For) or ast.dump(body[1]) != "Return(value=Constant(value=True))":
+        raise Refusal(item, "_check_types is not `for edge in self.edges: …` followed by `return True`")
+    loop = body[0]
+    if ast.dump(loop.iter) != "Attribute(value=Name(id='self', ctx=Load()), attr='edges', ctx=Load())" or not isinstance(loop.target, ast.Name):
+        raise Refusal(item, "the loop is not over self.edges")
+    ev = loop.target.id
+    lb = loop.body
+    # pre / post nodes
+    def node_assign(st, idx):
+        return isinstance(st, ast.Assign) and len(st.targets) == 1 and isinstance(st.targets[0], ast.Name) and ast.dump(st.value) == \
+            f"Subscript(value=Attribute(value=Name(id='self', ctx=Load()), attr='nodes', ctx=Load()), slice=Subscript(value=Name(id='{ev}', " \
+            f"ctx=Load()), slice=Constant(value={idx}), ctx=Load()), ctx=Load())"
+    if len(lb) != 8 or not node_assign(lb[0], 0) or not node_assign(lb[1], 1):
+        raise Refusal(item, "loop body does not begin with pre = self.nodes[edge[0]]; post = self.nodes[edge[1]] (or has another length)")
+    pre, post = lb[0].targets[0].id, lb[1].targets[0].id
+
+    def undef(st, node, attr):
+        want = f"BoolOp(op=Or(), values=[Compare(left=Attribute(value=Name(id='{node}', ctx=Load()), attr='{attr}', ctx=Load()), ops=[Is()], " \
+               f"comparators=[Constant(value=None)]), Call(func=Name(id='any', ctx=Load()), args=[GeneratorExp(elt=Compare(left=Name(id='v', ctx=Load()), " \
+               f"ops=[Is()], comparators=[Constant(value=None)]), generators=[comprehension(target=Name(id='v', ctx=Store()), iter=Call(func=Attribute(" \
+               f"value=Attribute(value=Name(id='{node}', ctx=Load()), attr='{attr}', ctx=Load()), attr='values', ctx=Load()), args=[], keywords=[]), ifs=[], is_async=0)])], keywords=[])])"
+        got = ast.dump(st.value) if isinstance(st, ast.Assign) else ""
+        import re as _re
+        got = _re.sub(r"Name\(id='(\w+)', ctx=(Load|Store)\(\)\)", lambda m: m.group(0) if m.group(1) in (node, "any") else f"Name(id='v', ctx={m.group(2)}())", got)
+        return isinstance(st, ast.Assign) and isinstance(st.targets[0], ast.Name) and got == want
+
+    def raises(st, flag=None):
+        """`if <flag>: raise X(...)` -> X"""
+        ok = isinstance(st, ast.If) and not st.orelse and isinstance(st.body[-1], ast.Raise) and isinstance(st.body[-1].exc, ast.Call) \
+            and isinstance(st.body[-1].exc.func, ast.Name)
+        if ok and flag is not None:
+            ok = isinstance(st.test, ast.Name) and st.test.id == flag
+        if not ok:
+            raise Refusal(item, "a test of _check_types is not `if …: raise <Exception>(…)`")
+        return st.body[-1].exc.func.id
+
+    if not undef(lb[2], pre, "output_type") or not undef(lb[4], post, "input_type"):
+        raise Refusal(item, "the definedness tests are not `<node>.<type> is None or any(v is None for v in <node>.<type>.values())` on the source's output / the target's input")
+    e1 = raises(lb[3], lb[2].targets[0].id)
+    e2 = raises(lb[5], lb[4].targets[0].id)
+    t3 = lb[6].test if isinstance(lb[6], ast.If) else None
+    want3 = f"Compare(left=Call(func=Name(id='len', ctx=Load()), args=[Attribute(value=Name(id='{pre}', ctx=Load()), attr='output_type', ctx=Load())], keywords=[]), " \
+            f"ops=[NotEq()], comparators=[Call(func=Name(id='len', ctx=Load()), args=[Attribute(value=Name(id='{post}', ctx=Load()), attr='input_type', ctx=Load())], keywords=[])])"
+    if t3 is None or ast.dump(t3) != want3:
+        raise Refusal(item, "third test is not `len(pre.output_type) != len(post.input_type)`")
+    e3 = raises(lb[6])
+    st = lb[7]
+    ok = isinstance(st, ast.If) and isinstance(st.test, ast.Compare) and isinstance(st.test.ops[0], ast.Eq) \
+        and isinstance(st.test.comparators[0], ast.Constant) and st.test.comparators[0].value == 1 \
+        and len(st.orelse) == 1 and isinstance(st.orelse[0], ast.Raise) and isinstance(st.orelse[0].exc, ast.Call)
+    if not ok:
+        raise Refusal(item, "last test is not `if len(…) == 1: … else: raise …`")
+    e5 = st.orelse[0].exc.func.id
+    inner = [x for x in st.body if isinstance(x, ast.If)]
+    if len(inner) != 1 or not (isinstance(inner[0].test, ast.UnaryOp) and isinstance(inner[0].test.op, ast.Not) and isinstance(inner[0].test.operand, ast.Call)):
+        raise Refusal(item, "single-port branch does not test `not <comparator>(a, b)`")
+    cmp_name = ExprT(item, "num", {}).dotted(inner[0].test.operand.func)
+    e4 = raises(inner[0])
+    rows = [("undefined_output", e1), ("undefined_input", e2), ("length_mismatch", e3), ("shape_mismatch", e4), ("several_ports", e5)]
+    txt = HEADER + "\nnamespace NirVerif.Generated\n\n" \
+        "/-- `_check_types`, per edge and in this order: the condition tested and the exception raised -/\n" \
+        "def checkErrors : List (String × String) :=\n  [" + ", ".join(f"({lean_str(a)}, {lean_str(b)})" for a, b in rows) + "]\n" \
+        f"/-- the comparison of the two single shapes -/\ndef checkComparator : String := {lean_str(cmp_name)}\n\nend NirVerif.Generated\n"
+    return {"CheckErrors.lean": txt}
+
+
+
+ITEMS = {"T1": t1_fields, "T2": t2_whitelist, "T3": t3_file_modes, "T4": t4_conv_axis, "T5": t5_flatten, "T6": t6_lif, "T7": t7_cuba, "T8": t8_unique_name, "T9": t9_neuron_shapes, "T10": t10_guards, "T11": t11_dict_overrides, "T12": t12_graph_interface, "T13": t13_write_shape, "T14": t14_worklist, "T15": t15_check_errors}
 
 
 def regenerate(out_dir=OUT, items=None):
